@@ -182,19 +182,19 @@ def run(ctx):
                 triples.append((t1, t2, t3, Position((i % 5) - 2, (i % 7) - 3)))
         transform_laws(ctx, triples)
         big = []
-        for k in range(ctx.pick(400, 6000)):
+        for k in range(ctx.pick(400, 60000)):
             mag = rng.choice([10, 10**6, 10**18, 2**63, 2**64 + 12345, 10**30])
             ri = lambda: rng.randint(-mag, mag)  # noqa: E731
             ts = [Transform(Position(ri(), ri()), rng.choice(O)) for _ in range(3)]
             big.append((ts[0], ts[1], ts[2], Position(ri(), ri())))
             ctx.hit('law.bigint')
         transform_laws(ctx, big)
-        position_laws(ctx, [tuple(rng.randint(-10**20, 10**20) for _ in range(4)) for _ in range(ctx.pick(100, 2000))])
+        position_laws(ctx, [tuple(rng.randint(-10**20, 10**20) for _ in range(4)) for _ in range(ctx.pick(100, 40000))])
         shapes = [(h, w) for h in range(1, 7) for w in range(1, 8)]
         grid_laws(ctx, [s for i, s in enumerate(shapes) if ctx.mine(i)], rng)
         cases = [(y, x, o, a) for y in (-2, 0, 3) for x in (-1, 0, 5) for o in O for a in Action]
         cases += [(rng.randint(-10**18, 10**18), rng.randint(-10**18, 10**18), rng.choice(O), rng.choice(list(Action)))
-                  for _ in range(ctx.pick(200, 3000))]
+                  for _ in range(ctx.pick(200, 60000))]
         next_position_law(ctx, [c for i, c in enumerate(cases) if ctx.mine(i)])
         ctx.sample('law', {'law': 'transform_action', 't1': str(big[0][0]), 't2': str(big[0][1]), 'x': str(big[0][3])})
         ctx.sample('law', {'law': 'linear', 'coords': list(coords[len(coords) // 2])})
